@@ -9,11 +9,17 @@
   (DESIGN 1.2 "oracle fields"); SHA-512 and the SRP arithmetic are computed here.  A lookup that
   misses is counted per op ("missing"): the model then fed a crypto function something the
   implementation never did.
+  Besides what the handler answers, every request op reports the SPECIFICATION side of the C01 theorems
+  (Proofs/PairSetupGate.lean, Proofs/PairSetupOrigin.lean; core Lean, no Mathlib): "good" = `goodM3` of the
+  request in the state it was served in, and the ghost afterwards: "exch" = salt of the open exchange,
+  "demoA" = the `A` of its latest good M3.  The harness compares them with the same notions computed by
+  the independent reference (harness/ref/srp_client.py) from the wire.
 -/
 import HapModel.Drv.Util
 import HapModel.Sha512
 import HapModel.PairSetup
 import HapModel.Gen.SrpGroup
+import Proofs.PairSetupOrigin
 namespace Hap.Drv.PairSetup
 open Lean Hap Hap.Drv Hap.PairSetup
 
@@ -103,6 +109,7 @@ def handle (j : Json) : R Json := do
   let mut ps : PS := {
     pincode := ← getHex st "pincode", mac := ← getHex st "mac", ltpk := ← getHex st "ltpk",
     paired := ← parsePairings (← getArr st "paired"), verifier := none }
+  let mut g : Ghost := Ghost.init
   let mut outs : Array Json := #[]
   for op in ← getArr j "ops" do
     if let .ok (.str "advert") := op.getObjVal? "ev" then
@@ -120,6 +127,10 @@ def handle (j : Json) : R Json := do
       continue
     let r : Req := { body := ← getHex op "body", salt := ← getHex op "salt", bRand := ← getHex op "b" }
     let (ps', o, calls) := step cfg ps r
+    -- `goodM3 cfg ps r` and `gNext cfg ps g r`, evaluated from the answer already computed:
+    -- theorems `goodM3_eq_isO1`, `gNext_eq_out` (Proofs/PairSetupOrigin.lean)
+    let good := isO1 o
+    g := gNextOut ps g r o
     ps := ps'
     let rd := render o
     let missing := (calls.filter fun c => !known t c).map callName
@@ -127,7 +138,10 @@ def handle (j : Json) : R Json := do
       ("status", Json.num rd.status), ("ctype", kindName rd.kind), ("body", jhex rd.body),
       ("changed", Json.bool rd.pairingChanged), ("paired", jpairings ps.paired),
       ("missing", Json.arr (missing.map Json.str).toArray),
-      ("verified", Json.bool (match ps.verifier with | some v => v.verified | none => false))])
+      ("verified", Json.bool (match ps.verifier with | some v => v.verified | none => false)),
+      ("good", Json.bool good),
+      ("exch", jopt (fun (x : Exch) => jhex x.salt) g.exch),
+      ("demoA", jopt jhex g.demoA)])
   pure (Json.mkObj [("ok", Json.arr outs)])
 
 end Hap.Drv.PairSetup
